@@ -494,6 +494,18 @@ class C09(Prop):
         for meh in ("ok", "raise", "recurse"):
             mk("preload-" + meh, ["mode net", "meh " + meh, "preload err,ok,err,err,ok", "step conn:c1", "step send:c1:a/"])
         mk("preload-epilog-fails", ["mode console", "meh recurse", "preload epilog-err", "step cin:a/"])
+        # failure isolation: one connection sends a BACKLOG of commands that each raise an uncaught error (in the command,
+        # in process_input, in an input_to callback) while the others have commands pending: the longjmp to backend()
+        # restarts the cycle behind the failing user, the others are served in the next iteration
+        for i, (kind, line) in enumerate([("cmd:boom", "boom"), ("input", "a"), ("prompt", "a")]):
+            mk("backlog-of-failing-commands-%d" % i, [
+                "mode net", "script u1 %s err" % kind, "step conn:c1", "step conn:c2", "step conn:c3",
+                "step send:c1:%s send:c2:x1/ send:c3:a/b/" % ((line + "/") * 9), "step send:c2:b/", "step idle", "step idle",
+                "step send:c3:c/", "step idle", "step idle", "step idle"])
+        mk("backlog-of-failing-commands-console", [
+            "mode console", "script u1 cmd:boom err", "script u3 cmd:boom err", "step conn:c1", "step conn:c2",
+            "step cin:%s send:c1:a/b/ send:c2:%s" % ("boom/" * 8, "boom/" * 8), "step send:c1:c/", "step idle", "step idle",
+            "step idle", "step idle", "step idle", "step idle"])
         mk("connect-rejected", ["mode net", "script k1 connect rej", "step conn:c1", "step conn:c2", "step send:c2:a/"])
         return B
 
@@ -512,6 +524,9 @@ class C09(Prop):
                                       "exit loop", 'hbs ""', "refs 1 0", "slots 1", "slotidx 1"],
             "user-disconnected-by-the-driver": pre + ["t input u1 a", "t cmd u1 a", "cycle 3", "t input u1 b", "t cmd u1 b",
                                                 "cycle 4", "t netdead u1", "exit loop", 'hbs ""', "refs 0 0", "slots 0", "slotidx"],
+            "line-waits-far-beyond-the-isolation-bound": [
+                "start", "cycle 1", "t connect k1", "t logon u1", "cycle 2", "t input u1 a", "t cmd u1 a"] +
+                ["cycle %d" % i for i in range(3, 10)] + ["t input u1 b", "t cmd u1 b"] + tail,
             "sanitizer-line": pre + ["sanitizer ERROR: AddressSanitizer: heap-use-after-free"] + tail,
         }
         good = pre + ["t input u1 a", "t cmd u1 a", "cycle 3", "t input u1 b", "t cmd u1 b"] + tail
@@ -608,6 +623,7 @@ class C09(Prop):
         sent = {}
         quiet_next = False
         aba_done = False
+        backlog_done = False
         user_of = {}                      # client -> ordinal of its user object (the console user is attempt 1)
         attempt = [1 if console else 0, 0 if (not console or 1 in refused) else 1]
 
@@ -689,6 +705,24 @@ class C09(Prop):
             if rng.chance(35, 100) or not acts:
                 acts.append(rng.weighted([("tick", 12), ("tick:1", 3), ("tick:5", 2), ("tick:1000", 4)]))
             lines.append("step " + " ".join(acts))
+            # directed: a backlog of failing commands on one connection, commands pending on the others
+            if len(open_c) >= 2 and not backlog_done and rng.chance(10, 100):
+                backlog_done = True
+                a = rng.choice(open_c)
+                if a in user_of:
+                    verb = rng.choice(verbs)
+                    kind = rng.choice(["cmd:" + verb, "input", "cmd:" + verb])
+                    lines.append("script u%d %s %s" % (user_of[a], kind, rng.choice(["err", "cerr;err", "w:zz;err", "hb:1;err"])))
+                    n = rng.range(6, 12)
+                    acts2 = ["send:c%d:%s" % (a, (verb + "/") * n)]
+                    sent[a] = sent.get(a, 0) + n
+                    for c in open_c:
+                        if c != a and rng.chance(70, 100):
+                            t = self.gen_text(rng, verbs, partial_ok=False)
+                            sent[c] = sent.get(c, 0) + t.count("/")
+                            acts2.append("send:c%d:%s" % (c, t))
+                    rng.shuffle(acts2)
+                    lines.append("step " + " ".join(acts2))
             # directed: a third party frees a record whose own event is still waiting in the batch, with an accept in
             # between (the allocator hands the freed address to the new record): A's net_dead destructs B
             if len(open_c) >= 2 and not aba_done and not quiet_next and rng.chance(12, 100):
